@@ -76,7 +76,7 @@ def emit_members(tab, eq_excluded=None, supersig=None, switch=None, helpers=None
     out.append("Definition hint_loops : list string := %s." % coq_list([coq_str(x) for x in ss.get("hint_loops", [])]))
     out.append("Definition arg_check : list string := %s." % coq_list([coq_str(x) for x in ss.get("arg_check", [])]))
     out.append("Definition hint_tests : list string := %s." % coq_list([coq_str(x) for x in ss.get("hint_tests", [])]))
-    # what methods that are read-only by name write on self (translators/tr_helpers.py)
+    # what methods that are read-only by name write on self (translators/tr_readonly.py)
     out.append("Definition reader_writes : list string := %s." % coq_list(
         [coq_str("%s.%s: %s" % (c_, m_, "; ".join(w_))) for c_, m_, w_ in (helpers or {}).get("writes", [])]))
     out.append("Definition validate_default_recursive : string := %s." % coq_str(ss.get("validate_default_recursive", "missing")))
